@@ -67,7 +67,9 @@ def project(svg, scale=8.0, want_style=False, want_raw=False):
            "order": [],          # top-level child element names, in order
            "style": [], "stylelen": 0,
            "badnum": 0, "inexact": 0, "overflow": 0, "whnum": 1,
-           "backdrop": [], "ws_between": 0}
+           "backdrop": [], "ws_between": 0,
+           "clstok": [],      # distinct class tokens, as code points
+           "namestok": []}    # distinct element names, attribute names and non-class attribute values
     stack = []       # element names
     cur_text = None  # collecting char data for text/style
     group_no = [0]
@@ -86,9 +88,19 @@ def project(svg, scale=8.0, want_style=False, want_raw=False):
         "text": {"x", "y", "class"},
     }
 
+    tokens = set()
+    names = set()
+
     def start(name, attrs):
         nonlocal cur_text
         depth = len(stack)
+        names.add(name)
+        for a_, v_ in attrs.items():
+            names.add(a_)
+            if a_ == "class":
+                tokens.update(v_.split())
+            elif not re.match(r"^[-\d., MAe+]*$", v_):
+                names.add(v_)
         ns_ok = name.startswith(SVG_NS + " ")
         local = name.split(" ", 1)[1] if " " in name else name
         if not ns_ok:
@@ -230,6 +242,8 @@ def project(svg, scale=8.0, want_style=False, want_raw=False):
     # literal entity references other than the five predefined ones and numeric ones
     doc["entityrefs"] = len([m for m in re.findall(r"&([^;\s]{1,32});", svg)
                              if m not in ("lt", "gt", "amp", "apos", "quot") and not m.startswith("#")])
+    doc["clstok"] = [cps(t) for t in sorted(tokens)]
+    doc["namestok"] = [cps(t) for t in sorted(names)]
     style = "".join(style_parts)
     doc["stylelen"] = len(style)
     if want_style:
